@@ -36,7 +36,12 @@ Inductive case :=
 | CVerifyEdDSA (kty_okp iface_ok crv_ed raw_ok : bool) (pubLen : Z) (o : obs)
 | CDecodeMetadata (inp : md_input) (dup_keys : bool) (r : md_result) (o : obs)
 | CConfigVal (c : cfg_val) (typed_target : bool) (o : obs)
-| CDurationHook (f : dur_from) (o : obs).
+| CDurationHook (f : dur_from) (o : obs)
+(* ---- layer A, enc/v1 readHeader over a scripted io.Reader ---- *)
+| CHeader (s : rscript) (src_err : bool) (o : obs)
+(* ---- layer A, crypto.ParseKey: the format sniffing; [std] / [url] = what the two base64 decoders
+   answer on the trimmed input; observed: the length of the symmetric key, -1 for any other key ---- *)
+| CParseKey (raw ct : list N) (std url : option Z) (o : obs).
 
 Definition obs_of (c : case) : obs :=
   match c with
@@ -44,7 +49,7 @@ Definition obs_of (c : case) : obs :=
   | CCbcOpen _ _ _ _ _ _ _ o | CSymEnc _ _ _ _ _ o | CSymDec _ _ _ _ _ _ _ _ _ _ o
   | CAlg _ _ o | CPad _ _ o | CUnpad _ _ o | CIso _ o | CJson _ _ o | CCron _ _ _ _ o
   | CPemKey _ _ o | CSerializeKey _ _ _ _ _ _ o | CVerifyEdDSA _ _ _ _ _ o
-  | CDecodeMetadata _ _ _ o | CConfigVal _ _ o | CDurationHook _ o => o
+  | CDecodeMetadata _ _ _ o | CConfigVal _ _ o | CDurationHook _ o | CHeader _ _ o | CParseKey _ _ _ _ o => o
   end.
 
 (* the spec oracle: the call did not panic *)
@@ -93,6 +98,31 @@ Definition json_model (which : Z) (data : list N) : obs :=
   else if which =? 2 then class_of bytesZ (keyalg_unmarshal data)
   else class_of bytesZ (keyalg_validate data).
 
+(* run-length forms used by the harness for long inputs (a 64 KiB list literal overflows the parser) *)
+Definition rep (c : N) (n : Z) : list N := repeat c (Z.to_nat n).
+Definition repZ (c : Z) (n : Z) : list Z := repeat c (Z.to_nat n).
+
+(* readHeader: (manifest, mac, every byte the caller can still read from the stream) or an error;
+   [src_err]: the error is the source's own *)
+Definition header_model (s : rscript) : option (obs * bool) :=
+  match read_header s with
+  | Some (Ok (HOk man mac extra rest)) =>
+      Some (OOk (bytesZ man ++ [-1] ++ bytesZ mac ++ [-1] ++ bytesZ (extra ++ script_data rest)), false)
+  | Some (Ok HFormat) => Some (OErr, false)
+  | Some (Ok HSrcErr) => Some (OErr, true)
+  | Some (Err _) => Some (OErr, false)
+  | Some Panic => Some (OPanic, false)
+  | None => None                                        (* out of fuel: never (read_header_terminates) *)
+  end.
+
+Definition parse_key_agrees (raw ct : list N) (std url : option Z) (o : obs) : bool :=
+  match parse_key raw ct std url with
+  | Ok (PkSym k) => if k >? 0 then obs_eqb (OOk [k]) o else obs_eqb OErr o   (* jwk.FromRaw refuses no bytes *)
+  | Ok _ => match o with OPanic => false | _ => true end                     (* the third-party parser decides *)
+  | Err _ => obs_eqb OErr o
+  | Panic => obs_eqb OPanic o
+  end.
+
 Definition model_agrees (v : variant) (c : case) : bool :=
   match c with
   | CKwWrap cek o => obs_eqb (class_of one (kw_wrap 16 cek)) o
@@ -121,6 +151,12 @@ Definition model_agrees (v : variant) (c : case) : bool :=
   | CDecodeMetadata inp dup r o => mout_agrees (decode_metadata v inp dup r) o
   | CConfigVal cv typed o => mout_agrees (config_decode_val v cv typed) o
   | CDurationHook f o => mout_agrees (duration_hook (metadata_view f)) o
+  | CParseKey raw ct std url o => parse_key_agrees raw ct std url o
+  | CHeader s se o =>
+      match header_model s with
+      | Some (mo, mse) => obs_eqb mo o && Bool.eqb mse se
+      | None => false
+      end
   end.
 
 (* 0 = agree and no panic; 1 = model and implementation differ; 2 = the implementation panicked *)
@@ -156,6 +192,11 @@ Example chk_ex12 : check_case (CSerializeKey (Some RRsaPriv) true false 0 0 0 OE
 Example chk_ex15 : check_case (CSerializeKey (Some REcdsaPriv) false true (256 ^ 32 + 5) (256 ^ 32 - 1000) 32 OErr) = 0.
 Proof. vm_compute. reflexivity. Qed.
 Example chk_ex16 : model_agrees Original (CSerializeKey (Some REcdsaPriv) false true (256 ^ 32 + 5) (256 ^ 32 - 1000) 32 OPanic) = true.
+Proof. vm_compute. reflexivity. Qed.
+Example chk_ex17 : check_case (CHeader [(hdr "{}" "QQ" ++ [1; 2]%N, RdNil); ([3]%N, RdEOF)] false
+  (OOk [123; 125; -1; 81; 81; -1; 1; 2; 3])) = 0.
+Proof. vm_compute. reflexivity. Qed.
+Example chk_ex18 : check_case (CHeader [(hdr "{}" "QQ", RdFail)] true OErr) = 0.
 Proof. vm_compute. reflexivity. Qed.
 Example chk_ex13 : check_case (CConfigVal VPtrToNilPtr true OErr) = 0. Proof. reflexivity. Qed.
 Example chk_ex14 : model_agrees Original (CConfigVal VPtrToNilPtr true OPanic) = true. Proof. reflexivity. Qed.
